@@ -804,6 +804,75 @@ def r6_writers_read_own_table_only(ctx):
     ctx.require(seen, "no writer of the own method table")
 
 
+
+def r7_linkback_request_reaches_the_flag(ctx):
+    """What the caller asks for when deriving (`copy(linkback=True)`, `variant(linkback=True)`) is what the child is
+    created with: the constructor stores its parameter in the flag unchanged, and a method of the function class that
+    constructs a function hands its own parameter of that name over as it is (or forwards **kwargs)."""
+    oc = A.function_class(ctx.repo)
+    init = oc.methods.get("__init__")
+    ctx.require(init is not None, f"{oc.key}: no constructor")
+    rv = recv_name(init)
+    # the flag: the attribute the children writer tests; here: the attribute stored from a constructor parameter of
+    # the same name that some method reads in a test
+    tested = set()
+    for m in oc.methods.values():
+        mrv = recv_name(m)
+        for n in ast.walk(m.node):
+            if isinstance(n, (ast.If, ast.IfExp)):
+                tested |= {x.attr for x in ast.walk(n.test) if is_self_attr(x, selfname=mrv)}
+    params = [a.arg for a in init.node.args.args + init.node.args.kwonlyargs]
+    flags = []
+    for st in all_stmts(init.node):
+        if isinstance(st, ast.Assign) and len(st.targets) == 1 and is_self_attr(st.targets[0], selfname=rv) and st.targets[0].attr in tested and st.targets[0].attr in params:
+            flags.append((st.targets[0].attr, st))
+    flags = [(a, st) for a, st in flags if a in ("linkback",) or any(isinstance(c, ast.Call) and isinstance(c.func, ast.Attribute) and c.func.attr == "append" and isinstance(c.func.value, ast.Attribute) and c.func.value.attr == "children" for m in oc.methods.values() for t in ast.walk(m.node) if isinstance(t, ast.If) and any(is_self_attr(x, a, selfname=recv_name(m)) for x in ast.walk(t.test)) for c in ast.walk(t))]
+    ctx.require(len(flags) == 1, f"{oc.key}: the flag that makes a derivation record itself with its parents was not found")
+    flag, st = flags[0]
+    ctx.touch(init)
+
+    def unchanged(m, value, pname):
+        """value is the method's parameter `pname`, never rebound in the method (bool(..) of it counts)"""
+        v = value
+        if isinstance(v, ast.Call) and call_name(v) == "bool" and len(v.args) == 1:
+            v = v.args[0]
+        if not (isinstance(v, ast.Name) and v.id == pname):
+            return False
+        return not any(isinstance(x, ast.Name) and x.id == pname and isinstance(x.ctx, ast.Store) for x in ast.walk(m.node))
+
+    ctx.ob(
+        f"{init.key}:{flag}-stored-as-asked",
+        init.loc(st),
+        f"the constructor stores its `{flag}` parameter in the flag unchanged",
+        unchanged(init, st.value, flag),
+        f"`{short(st, 60)}`: the child is not created with the linkback the caller asked for: a derivation asked to follow its ancestors either locks them at first use or silently stops following them",
+    )
+    n = 0
+    for m in oc.methods.values():
+        if m is init:
+            continue
+        mparams = [a.arg for a in m.node.args.args + m.node.args.kwonlyargs]
+        for c in ast.walk(m.node):
+            if not (isinstance(c, ast.Call) and (call_name(c) == oc.name or (isinstance(c.func, ast.Call) and call_name(c.func) == "type") or (isinstance(c.func, ast.Attribute) and c.func.attr == "__class__"))):
+                continue
+            if flag not in mparams:
+                continue
+            n += 1
+            ctx.touch(m)
+            kw = [k for k in c.keywords if k.arg == flag]
+            ok = bool(kw) and unchanged(m, kw[0].value, flag)
+            ctx.ob(
+                f"{m.key}:{flag}-handed-over",
+                m.loc(c),
+                f"{m.name}() creates the derived function with the `{flag}` its caller asked for (`{short(c, 60)}`)",
+                bool(ok),
+                f"{m.name}() takes `{flag}` from its caller but creates the function with "
+                + (f"`{short(kw[0].value, 40)}`" if kw else "none")
+                + ": a derivation created with linkback is, in some states of the parent, not linked - the first use of the child locks the ancestors, and their later changes raise instead of showing up in the child",
+            )
+    ctx.require(n >= 1, f"{oc.key}: no method derives a function with a `{flag}` of its own")
+
+
 RULES = [
     ("C16.R6", "P1", r6_writers_read_own_table_only, "writers of the own table read only the own table"),
     ("C16.R1", "P1", r1_guard_dominates_mutation, "guard dominates mutation"),
@@ -811,4 +880,5 @@ RULES = [
     ("C16.R3", "P1", r3_linkback, "linkback: one writer, readers"),
     ("C16.R4", "P1", r4_child_writes_nothing_of_parent, "a child writes nothing of a parent"),
     ("C16.R5", "P1", r5_every_mutator_rebuilds, "every mutator rebuilds"),
+    ("C16.R16", "P1", r7_linkback_request_reaches_the_flag, "the linkback a derivation is asked for is the linkback the child is created with"),
 ]
